@@ -61,7 +61,7 @@ def compare(cfg, ops):
     upto = min(first_silence(pair['threaded']), first_silence(pair['asyncio']))
     a, b = obs(pair['threaded'], upto), obs(pair['asyncio'], upto)
     case = dict(cfg=cfg.key(), ops=ops)
-    disc_all = any(op == ('disc', None) for op in ops[:upto])
+    disc_all = any(op == ('disc', None) for r in pair.values() for op in r.log[:upto])      # (the runners' logs: a stimulus whose precondition does not hold is not executed)
     v = None
     def same_session(s):
         x, y = a[0].get(s, ([], [])), b[0].get(s, ([], []))
@@ -72,13 +72,15 @@ def compare(cfg, ops):
         # one server may be ahead in *delivering* (simultaneous timers are served in a different order): what the other has not
         # delivered yet must still be in its queue, and what both delivered must agree, transport included
         short, long_, lag = (x[1], y[1], 'threaded') if len(x[1]) < len(y[1]) else (y[1], x[1], 'asyncio')
-        post = pair[lag].post[:upto]                      # the comparison stops at `upto`: what matters is the queue at that point
-        fl = post[-1].get(s) if post else None
-        queued = fl[4] if fl else 0
         rl = pair[lag]
-        # ... and the lagging server must have had no occasion to deliver it: the comparison was cut before the end of the run, or
-        # (by the history, not by the server's own mark) an upgrade of the session is still in progress so that it cannot be read
-        excused = upto < len(rl.log) or oracles.handshake_in_progress(rl, s, len(rl.log) - 1)
+        post = rl.post[:upto]                             # the comparison stops at `upto`: what matters is the queue at that point,
+        alive = [p.get(s) for p in post if p.get(s) is not None and not p.get(s)[0]]      # or when the session was last alive
+        queued = alive[-1][4] if alive else 0
+        ended = not post or post[-1].get(s) is None or post[-1].get(s)[0]
+        # ... and the lagging server must have had no occasion to deliver it: the comparison was cut before the end of the run, the
+        # session has ended meanwhile (nothing can be read from it any more), or (by the history, not by the server's own mark) an
+        # upgrade of the session is still in progress so that it cannot be read
+        excused = upto < len(rl.log) or ended or oracles.handshake_in_progress(rl, s, len(rl.log) - 1)
         return excused and long_[:len(short)] == short and len(long_) - len(short) <= queued
 
     if any(not same_session(s) for s in set(a[0]) | set(b[0])):
